@@ -19,6 +19,10 @@
 //	Parts 4-6 and the extensions of parts 1-3 added by the audit (AUDIT.md) are in audit.go: one tls.Config
 //	  answering hello sequences, setters interleaved with issuance, failing CA signer, edge spellings, expiry
 //	  histories through the SNI entry points, TLS 1.2 handshakes, more host classes under the scheduler.
+//	Parts 7-8 (round 6, round6.go): the certificate a client is presented by a real martian.Proxy in MITM mode
+//	  (CONNECT authority x Host header x SNI x what the proxy's request modifier does to the CONNECT, one or two
+//	  tunnels per proxy), and the kind of CA that is configured (self-signed / intermediate x key type x signature
+//	  algorithm on the CA certificate).
 package main
 
 import (
@@ -137,12 +141,36 @@ func (e *env) checkCert(tlsc *tls.Certificate, name string, isIP bool, at time.T
 	if tlsc == nil || len(tlsc.Certificate) == 0 {
 		return "no_chain", "nil certificate or empty chain", nil
 	}
-	leaf, err := x509.ParseCertificate(tlsc.Certificate[0])
+	if sym, detail, leaf = e.checkChain(tlsc.Certificate, name, isIP, at); sym != "" {
+		return sym, detail, leaf
+	}
+	signer, ok := tlsc.PrivateKey.(crypto.Signer)
+	if !ok {
+		return "key_mismatch", "certificate carries no usable private key", leaf
+	}
+	pub, ok := signer.Public().(interface{ Equal(crypto.PublicKey) bool })
+	if !ok || !pub.Equal(leaf.PublicKey) {
+		return "key_mismatch", "leaf public key does not match the private key held by the config", leaf
+	}
+	if tlsc.Leaf != nil && !tlsc.Leaf.Equal(leaf) {
+		return "leaf_field_mismatch", "tls.Certificate.Leaf differs from the first chain element", leaf
+	}
+	return "", "", leaf
+}
+
+// checkChain is the part of the oracle that needs nothing but the DER chain (what a client sees on the wire): it
+// verifies under the configured CA for the name at the time, names exactly that host, carries the organization.
+// Possession of the key is then shown by the handshake itself.
+func (e *env) checkChain(chain [][]byte, name string, isIP bool, at time.Time) (sym, detail string, leaf *x509.Certificate) {
+	if len(chain) == 0 {
+		return "no_chain", "empty chain", nil
+	}
+	leaf, err := x509.ParseCertificate(chain[0])
 	if err != nil {
 		return "unparsable_leaf", err.Error(), nil
 	}
 	inter := x509.NewCertPool()
-	for _, raw := range tlsc.Certificate[1:] {
+	for _, raw := range chain[1:] {
 		ic, err := x509.ParseCertificate(raw)
 		if err != nil {
 			return "unparsable_chain", err.Error(), leaf
@@ -182,17 +210,6 @@ func (e *env) checkCert(tlsc *tls.Certificate, name string, isIP bool, at time.T
 	}
 	if len(leaf.Subject.Organization) != 1 || leaf.Subject.Organization[0] != e.org {
 		return "wrong_organization", fmt.Sprintf("organization %q, configured %q", leaf.Subject.Organization, e.org), leaf
-	}
-	signer, ok := tlsc.PrivateKey.(crypto.Signer)
-	if !ok {
-		return "key_mismatch", "certificate carries no usable private key", leaf
-	}
-	pub, ok := signer.Public().(interface{ Equal(crypto.PublicKey) bool })
-	if !ok || !pub.Equal(leaf.PublicKey) {
-		return "key_mismatch", "leaf public key does not match the private key held by the config", leaf
-	}
-	if tlsc.Leaf != nil && !tlsc.Leaf.Equal(leaf) {
-		return "leaf_field_mismatch", "tls.Certificate.Leaf differs from the first chain element", leaf
 	}
 	return "", "", leaf
 }
@@ -1182,6 +1199,7 @@ func main() {
 	hs := histories(tier)
 	scen := scenarios(tier)
 	rh, sh, fh := reuseHistories(tier), setterHistories(tier), faultHistories(tier)
+	pcs, cks := proxyHistories(tier), caKinds(tier) // round 6
 	if i, n := lib.ShardEnv(); n > 0 {
 		out := &shardOut{Counters: map[string]int64{}}
 		var envs []*env
@@ -1200,26 +1218,55 @@ func main() {
 				fmt.Fprintf(os.Stderr, "shard %d: %s done after %.1fs\n", i, what, time.Since(t0).Seconds())
 			}
 		}
-		inputsPart(out, envs, gs, i, n, hsEvery)
-		lap("inputs")
-		expiryPart(out, envs[0], hs, i, n)
-		lap("expiry")
+		// development aid: C06_ONLY=<comma separated part names> runs only those parts (the verdict of a normal run uses all)
+		on := func(part string) bool {
+			o := os.Getenv("C06_ONLY")
+			return o == "" || strings.Contains(","+o+",", ","+part+",")
+		}
+		if on("inputs") {
+			inputsPart(out, envs, gs, i, n, hsEvery)
+			lap("inputs")
+		}
+		if on("expiry") {
+			expiryPart(out, envs[0], hs, i, n)
+			lap("expiry")
+		}
 		// audit extensions (parts 4-6)
-		reusePart(out, envs[0], rh, i, n, 8)
-		if tier == "thorough" {
-			reusePart(out, ec, rh, i, n, 8)
+		if on("reuse") {
+			reusePart(out, envs[0], rh, i, n, 8)
+			if tier == "thorough" {
+				reusePart(out, ec, rh, i, n, 8)
+			}
+			lap("reuse")
 		}
-		lap("reuse")
-		settersPart(out, newEnv(ec.kind, ec.ca, ec.capriv, ""), sh, i, n)
-		lap("setters")
-		signerFaultPart(out, ec, fh, i, n)
-		lap("signer faults")
-		dl := time.Now().Add(40 * time.Second)
-		if tier == "thorough" {
-			dl = time.Now().Add(11 * time.Minute)
+		if on("setters") {
+			settersPart(out, newEnv(ec.kind, ec.ca, ec.capriv, ""), sh, i, n)
+			lap("setters")
 		}
-		concPart(out, ec, scen, i, n, dl)
-		lap("conc")
+		if on("signer") {
+			signerFaultPart(out, ec, fh, i, n)
+			lap("signer faults")
+		}
+		// round 6 (parts 7-8): the certificate presented by a real proxy; kinds of configured CA
+		if on("proxy") {
+			proxyPart(out, ec, pcs, i, n)
+			if tier == "thorough" {
+				proxyPart(out, envs[0], pcs, i, n)
+			}
+			lap("proxy")
+		}
+		if on("ca") {
+			caPart(out, cks, i, n)
+			lap("ca kinds")
+		}
+		if on("conc") {
+			dl := time.Now().Add(40 * time.Second)
+			if tier == "thorough" {
+				dl = time.Now().Add(11 * time.Minute)
+			}
+			concPart(out, ec, scen, i, n, dl)
+			lap("conc")
+		}
 		b, _ := json.Marshal(out)
 		os.WriteFile(os.Getenv("VERIF_SHARD_OUT"), b, 0o644)
 		return
@@ -1232,7 +1279,13 @@ func main() {
 		raceIters = "150"
 	}
 	raceCh := make(chan lib.RaceResult, 1)
-	go func() { raceCh <- lib.RacePass("c06", "racebodies", "c06", raceIters) }()
+	go func() {
+		if o := os.Getenv("C06_ONLY"); o != "" && !strings.Contains(","+o+",", ",race,") {
+			raceCh <- lib.RaceResult{Err: "skipped: C06_ONLY development run (parts " + o + " only)"}
+			return
+		}
+		raceCh <- lib.RacePass("c06", "racebodies", "c06", raceIters)
+	}()
 	files, errs, outs := lib.RunShards(nShards, lib.Root+"/.build/c06/shards")
 	sets := map[string]map[string]bool{}
 	var allViol []lib.Violation
@@ -1296,22 +1349,28 @@ func main() {
 	rep.Coverage["host_spellings"] = nsp
 	rep.Coverage["distinct_requested_names"] = len(sets["names"])
 	rep.Coverage["expiry_model_states"] = es
-	auditSteps := rep.Counter("reuse_steps") + rep.Counter("reuse_handshakes") + rep.Counter("setter_steps") + rep.Counter("signer_fault_steps")
-	auditHist := rep.Counter("reuse_histories") + rep.Counter("setter_histories") + rep.Counter("signer_fault_histories")
+	auditSteps := rep.Counter("reuse_steps") + rep.Counter("reuse_handshakes") + rep.Counter("setter_steps") + rep.Counter("signer_fault_steps") +
+		rep.Counter("proxy_cases") + rep.Counter("proxy_handshakes") + rep.Counter("ca_requests") + rep.Counter("ca_handshakes")
+	auditHist := rep.Counter("reuse_histories") + rep.Counter("setter_histories") + rep.Counter("signer_fault_histories") + rep.Counter("proxy_histories") + rep.Counter("ca_kinds")
+	rep.Coverage["proxy_distinct_inputs"] = len(sets["proxy_inputs"])
+	rep.Coverage["ca_kind_classes"] = len(sets["ca_kind_classes"])
 	rep.Coverage["reuse_config_states"] = len(sets["reuse_states"])
-	rep.Coverage["states"] = int64(len(sets["names"])+len(es)+len(sets["reuse_states"])) + rep.Counter("conc_distinct_outcome_logs")
+	rep.Coverage["states"] = int64(len(sets["names"])+len(es)+len(sets["reuse_states"])+len(sets["proxy_inputs"])+len(sets["ca_kind_classes"])) + rep.Counter("conc_distinct_outcome_logs")
 	rep.Coverage["transitions"] = rep.Counter("getcertificate_calls") + rep.Counter("handshakes") + rep.Counter("expiry_steps") + rep.Counter("conc_points") + auditSteps
 	rep.Coverage["traces_validated_against_impl"] = rep.Counter("input_cases") + rep.Counter("expiry_histories") + rep.Counter("conc_executions") + auditHist
 	rep.Coverage["evaluations"] = rep.Counter("input_cases") + rep.Counter("handshakes") + rep.Counter("expiry_steps") + rep.Counter("conc_executions") + auditSteps
 	rep.Coverage["distinct_nontrivial"] = int64(len(sets["nontrivial"])) + rep.Counter("expiry_histories_with_invalid_cached_entry") + rep.Counter("conc_scenarios_with_schedule_dependent_outcome") +
-		rep.Counter("reuse_histories_with_two_answers") + rep.Counter("setter_fresh_after_a_change") + rep.Counter("signer_fault_histories_with_a_failed_signature")
+		rep.Counter("reuse_histories_with_two_answers") + rep.Counter("setter_fresh_after_a_change") + rep.Counter("signer_fault_histories_with_a_failed_signature") +
+		rep.Counter("proxy_cases_nontrivial") + rep.Counter("ca_kinds_intermediate")
 	rep.Coverage["rule"] = "inputs: every (host spelling x SNI mode x entry point) of the pool, per CA environment, variant order rotated per environment so that every variant class meets a cold cache; " +
 		"non-trivial = the expected answer is not 'issue for the plain lower-case DNS fallback host as given' (port or brackets to strip, IP SAN, upper-case letters, SNI overriding the fallback, or refusal under TLSForHost). " +
 		"expiry: every (class, validity, issue shift of A, issue shift of B, request sequence) history; non-trivial = a cached entry is invalid (expired / not yet valid) when requested. " +
 		"schedules: every interleaving of every scenario; non-trivial = scenarios whose observable outcome depends on the schedule. " +
 		"reuse: every (config kind, hello sequence) with ONE tls.Config answering all hellos; non-trivial = the config had to give two different answers (two names, or a name and a refusal). " +
 		"setters: every operation sequence over {SetOrganization x2, SetValidity x2, request new, request first again} ending in a request; non-trivial = a fresh certificate issued after a setter changed a value. " +
-		"signer faults: every (request sequence, set of failing CA signatures); non-trivial = a signature actually failed."
+		"signer faults: every (request sequence, set of failing CA signatures); non-trivial = a signature actually failed. " +
+		"proxy: every (CONNECT authority form x Host header x SNI mode x CONNECT modifier [x client version]) through a real martian.Proxy, and every ordered pair of tunnels over a reduced alphabet through one proxy; non-trivial = without SNI the proxy has another host name at hand than the authority the client named (rewritten URL host, differing Host header, the host of an earlier tunnel), or no host at all. " +
+		"ca kinds: every (issuer x CA key x signature algorithm on the CA certificate) with a fixed request list; non-trivial = the configured CA is not self-signed."
 	rep.Coverage["exhaustive"] = rep.Incomplete == ""
 	rep.Coverage["bounds"] = fmt.Sprintf("inputs: label pool %d labels, 1..%d labels per name (<=253 chars), %d IPv4 + %d IPv6 literals, ports {none,:443,:8443}, IPv6 bare/[x]:port/[x], empty host, SNI {absent,equal,different}, entry {TLSForHost,TLS}, %d RSA-CA configs + 1 ECDSA-CA config, real handshake for every IP/empty group and every %d-th name; "+
 		"expiry: %d histories = classes %v x (V,eps) x issue shifts {none,0,V-eps,V+eps,2V,-(V-eps),-(V+eps)}^2 x request sequences of length 1..%d over {A,A:port,B}; "+
@@ -1323,7 +1382,11 @@ func main() {
 			"setters: %d histories of length <=%d; signer faults: %d histories (sequences of length 1..%d over {A,B(ip),A:port} x all failure masks); "+
 			"schedules: the scenario count includes two-thread scenarios (empty cache / expired A) for the host classes the original list never ran concurrently (quick: dns_mixed_case, ipv4, ipv6; thorough: dns_mixed_case, ipv4)",
 			len(edgeGroups()), len(auditHistories(tier)), len(rh), len(reuseKinds), reuseKinds, map[string]int{"quick": 3, "thorough": 4}[tier], helloClasses,
-			len(sh), map[string]int{"quick": 4, "thorough": 5}[tier], len(fh), map[string]int{"quick": 3, "thorough": 4}[tier])
+			len(sh), map[string]int{"quick": 4, "thorough": 5}[tier], len(fh), map[string]int{"quick": 3, "thorough": 4}[tier]) +
+		fmt.Sprintf("; round 6: proxy: %d histories = one tunnel: %d CONNECT authority forms (dns / mixed-case / IPv4 / [IPv6] with the tier's ports, with and without port, no host) x Host header %v x SNI {absent,equal,different} x %d CONNECT modifiers (martian url.Modifier: none, URL host -> dns:port / ipv4:port / [ipv6]:port / dns, scheme+path only) x client version (thorough: TLS 1.3 and 1.2); "+
+			"two tunnels one after the other through the same proxy: every ordered pair over %d forms x SNI {absent,different}, per modifier (quick: none and URL host -> dns:port; thorough: all); one real proxy per history, one real handshake per tunnel; ECDSA CA (thorough also the RSA CA); "+
+			"ca kinds: %d kinds = issuer {self, RSA root, ECDSA root(s), Ed25519 root} x CA key {RSA-2048, ECDSA P-256/P-384%s, Ed25519} x every signature algorithm of the issuer key (RSA PKCS#1 and PSS with SHA-256/384/512, ECDSA with SHA-256/384/512, Ed25519), %d requests each, TLS 1.3 + TLS 1.2 handshakes",
+			len(pcs), len(proxyForms(tier)), hostHdrNames[:map[string]int{"quick": 2, "thorough": 3}[tier]], len(connectMods), len(pairForms), len(cks), map[string]string{"quick": "", "thorough": "/P-521"}[tier], len(caRequests(0)))
 	rep.Assumptions = []string{
 		"time is moved at issuance (clock origin shifted by -d, then requests at shift 0): translation invariance in time is assumed, because x509's re-verification inside mitm uses the real clock",
 		"margins eps >= 20 s around the validity boundary; a history that takes longer than eps/2 of wall clock is discarded and reported as incomplete",
@@ -1334,6 +1397,8 @@ func main() {
 		"a request during which the CA signer failed may be refused; any certificate handed out must still be a good one, and later requests must succeed",
 		"only Go's crypto/tls client and x509 verifier; part 3 uses a harness-built ECDSA P-256 CA (cheap signatures), parts 1-2 the RSA CA of mitm.NewAuthority",
 		"bracketed IPv6 without port ([::1]) is counted as a host spelling a client may name (URL host form); reported under its own signature",
+		"proxy family: the host a client names is the SNI, else the request-target of its CONNECT; a differing Host header and whatever a request modifier writes into req.URL (the upstream target) do not change it. Modifiers that rewrite req.Host itself are not enumerated (the statement does not say whose name that is). One default schedule per case (the schedule dimension belongs to part 3)",
+		"ca kinds: 'chains to the configured CA' is judged with the configured CA certificate as the only trust anchor, whether it is self-signed or an intermediate; name-constrained CAs are not enumerated",
 	}
 	rep.ReportRaces(<-raceCh)
 	rep.Finish()
